@@ -127,6 +127,16 @@ D = {
  "C08g": ("a procedure's entry is also recorded as a code label (overwriting an earlier label of that name)", "label and procedure with the same name, label first, taken jump to the label"),
  "C09g": ("no appended HLT when the program ends in HLT; prompt guard by source-map membership", "label behind the final written HLT reached by a taken jump (panic), free running and stepping"),
  "C10g": ("forward references kept as a map position -> name", "one macro use with two forward jumps, an earlier one undefined: accepted, Internal Error at run time"),
+ "C11g": ("a numeric macro argument is re-rendered as i16", "macro argument >= 0x8000 in an unsigned-only position (logic immediates, `[p]`, `set`, forwarding to another macro)"),
+ "C12g": ("`dw \"...\"` no longer writes the zero high bytes", "DW string placed (through `set`) over bytes an earlier definition made non-zero"),
+ "C13g": ("macro definition skips the parameter named `_`", "parameter `_` used in the body and called with a real argument"),
+ "C14g": ("undefined-label list de-duplicated by position (same idea as C14e)", "one macro use with two forward jumps, the undefined one sorting after a defined one"),
+ "C15g": ("`dw \"...\"` writes the high byte at addr+1 without wrap", "DW string at an odd offset reaching physical 0xFFFFF (`set` >= 0xF001): loader panics"),
+ "C16g": ("SourceMapper::set_source moves whenever the new offset is larger (also for nested uses, whose offsets are in expanded text)", "nested macro use behind a long, repeatedly substituted argument, near the top of the file"),
+ "C17g": ("prompt `print mem a : n` accepts a+n == 2^20", "prompt command `print mem 1048575 : 1` (panic after printing)"),
+ "C18g": ("the prompt reads through a persistent BufReader", "a prompt answered before an INT 21h read (piped stdin): the service sees end of input"),
+ "C19g": ("undefined labels sorted by position only (same idea as C19e)", "two undefined labels from one macro use"),
+ "C20g": ("the driver keeps one BufReader for prompt commands", "stepping / breakpoint prompts before console input on piped stdin"),
 }
 rows = []
 for d in sorted(glob.glob(os.path.join(ROOT, "seeded", "*"))):
